@@ -180,12 +180,23 @@ def run(tier, seed):
     from mudslide.models import scattering_models as MM
     from mudslide.batch import BatchedTraj, TrajGenConst
     from mudslide.even_sampling import EvenSamplingTrajectory
-    for it in range(3 if tier == "quick" else 30):
+    for it in range(6 if tier == "quick" else 40):
         mname, x0, k, lo, hi = [("simple", -1.5, rng.uniform(9.0, 14.0), 2.0, 6.0), ("extended", -10.0, rng.uniform(8.0, 14.0), -1.0, 1.0), ("dual", -2.0, rng.uniform(15.0, 30.0), 3.0, 7.0)][it % 3]
         with p10.Instr() as inst:
-            BatchedTraj(MM[mname](), TrajGenConst([x0], [k], 0, seed=rng.randrange(2 ** 31)), EvenSamplingTrajectory, samples=1, dt=rng.choice([5.0, 10.0]), bounds=[lo, hi], max_steps=600,
+            dt_ = rng.choice([5.0, 10.0]); every_ = 1 if it % 2 == 0 else rng.choice([3, 4]); maxs_ = 600 if it % 2 == 0 else rng.choice([600, rng.randint(40, 120)])
+            BatchedTraj(MM[mname](), TrajGenConst([x0], [k], 0, seed=rng.randrange(2 ** 31)), EvenSamplingTrajectory, samples=1, dt=dt_, bounds=[lo, hi], max_steps=maxs_, trace_every=every_,
                         spawn_stack=rng.choice([[2], [3], [2, 2]]), quadrature="gl").compute()
-            info = dict(cls="even-sampling tree", model=mname, x0=x0, k=k, bounds=[lo, hi], trajectories=len(inst.trajs))
+            info = dict(cls="even-sampling tree", model=mname, x0=x0, k=k, bounds=[lo, hi], trajectories=len(inst.trajs), dt=dt_, trace_every=every_, max_steps=maxs_)
+            res.count("es-tree/trace_every=%d" % every_)
+            # the step counter of every member counts the steps since the root started: time = nsteps*dt, never beyond max_steps, snapshots on the trace_every grid (the last one excepted)
+            for t in inst.trajs:
+                steps_logged = [int(round(float(sn["time"]) / dt_)) for sn in t.tracer]
+                offgrid = [q for q in steps_logged[:-1] if q % every_ != 0]
+                if abs(float(t.time) - t.nsteps * dt_) > 1e-9 * max(1.0, abs(float(t.time))) or t.nsteps > maxs_ or offgrid:
+                    bad.append(dict(failed="a trajectory ends at the first step at which the step limit is reached and logs every trace_every-th step (even-sampling tree member %d: step counter %d, time/dt %g, max_steps %d, trace_every %d, logged steps off the grid %r)"
+                                           % (t._v["id"], t.nsteps, float(t.time) / dt_, maxs_, every_, offgrid[:4]), case=info)); break
+            if every_ != 1 or maxs_ != 600:
+                continue          # the box-rule reading below needs every step in the log
             res.count("es-tree-box-rule", len(inst.trajs)); res.case(("estree-box", mname, k, lo, hi), len(inst.trajs) > 1, info)
             for t in inst.trajs:
                 if t.weight == 0.0: continue
@@ -193,7 +204,7 @@ def run(tier, seed):
                 inside = [lo < x_ < hi for x_ in xs]
                 first_in = inside.index(True) if any(inside) else None
                 left_at = next((j for j in range(first_in + 1, len(xs)) if not inside[j]), None) if first_in is not None else None
-                ended_by_steps = t.nsteps >= 600
+                ended_by_steps = t.nsteps >= maxs_
                 if (left_at is None and not ended_by_steps) or (left_at is not None and left_at != len(xs) - 1):
                     bad.append(dict(failed="a trajectory ends at the first step at which it has left the bounding box after having been inside it - never earlier and never later (even-sampling tree member %d: %d snapshots, first inside at %r, first outside afterwards at %r, last x=%r)"
                                            % (t._v["id"], len(xs), first_in, left_at, xs[-1]), case=info)); break
